@@ -43,6 +43,17 @@ func (e *Engine) doCall(st *State, fr *Frame, call ssa.CallInstruction, val ssa.
 				}
 			}
 		}
+		// a method value (x.M stored in a variable, then called) is a closure over a synthetic
+		// wrapper: calling it is calling the method on the bound receiver
+		if f := ci.Static; f != nil && strings.HasPrefix(f.Synthetic, "bound method wrapper") && ci.FnTerm != nil && ci.FnTerm.K == KClosure && len(ci.FnTerm.A) >= 1 {
+			if obj, ok := f.Object().(*types.Func); ok {
+				if target := e.Cfg.Prog.FuncValue(obj); target != nil {
+					ci.Static = target
+					ci.Args = append([]*Term{ci.FnTerm.A[0]}, ci.Args...)
+					ci.FnTerm = Func(target.String(), target)
+				}
+			}
+		}
 		if _, isB := c.Value.(*ssa.Builtin); isB {
 			e.builtin(st, fr, call, val, c.Value.(*ssa.Builtin), ci.Args, site)
 			return true, false
